@@ -98,7 +98,7 @@ def struct_fields(src, name, skip_unknown=False):
 
 def norm_type(t):
     t = re.sub(r"\s+", "", t)
-    if t in ("u64", "u32", "usize", "bool", "u8"):
+    if t in ("u64", "u32", "usize", "bool", "u8", "u128"):
         return t
     if t == "Vec<u64>":
         return "vec"
@@ -137,6 +137,25 @@ def fn_source(src, impl, name):
     return src[start:j + 1]
 
 
+def free_fn_source(src, name):
+    """text of a function outside any impl block"""
+    m = re.search(r"\n(?:pub(?:\([a-z]+\))?\s+)?fn %s\s*\(" % re.escape(name), src)
+    if not m:
+        raise GenError("fn %s not found" % name)
+    start = m.start() + 1
+    i = src.index("{", start)
+    depth, j = 0, i
+    while True:
+        if src[j] == "{":
+            depth += 1
+        elif src[j] == "}":
+            depth -= 1
+            if depth == 0:
+                break
+        j += 1
+    return src[start:j + 1]
+
+
 # ---------------------------------------------------------------- parser (to a small AST)
 
 class P:
@@ -160,6 +179,10 @@ class P:
     def fn(self):
         if self.at("pub"):
             self.eat("pub")
+            if self.at("("):
+                self.eat("(")
+                self.eat(kind="id")
+                self.eat(")")
         self.eat("fn")
         name = self.eat(kind="id")
         self.eat("(")
@@ -185,9 +208,7 @@ class P:
             self.eat("->")
             ret = self.type()
         body = self.block()
-        if selfmode is None:
-            raise GenError("fn %s has no self parameter" % name)
-        return dict(name=name, params=params, selfmode=selfmode, ret=ret, body=body)
+        return dict(name=name, params=params, selfmode=selfmode or "free", ret=ret, body=body)
 
     def type(self):
         v = self.eat(kind="id")
@@ -212,7 +233,16 @@ class P:
         self.eat("{")
         stmts, tail = [], None
         while not self.at("}"):
-            if self.at("let"):
+            if self.at("const"):
+                self.eat("const")
+                x = self.eat(kind="id")
+                self.eat(":")
+                ty = self.type()
+                self.eat("=")
+                e = self.expr()
+                self.eat(";")
+                stmts.append(("let", x, ty, e))
+            elif self.at("let"):
                 self.eat("let")
                 if self.at("mut"):
                     self.eat("mut")
@@ -418,9 +448,10 @@ class P:
             return self.if_expr()
         if k == "id":
             self.eat()
-            while self.at("::"):          # a path: only its last segment matters here
+            while self.at("::"):          # a path: its last segment, qualified by an integer type if there is one
                 self.eat("::")
-                v = self.eat(kind="id")
+                nxt = self.eat(kind="id")
+                v = "%s::%s" % (v, nxt) if v in ("u32", "u64", "usize", "u128") else nxt
             if self.at("!"):              # macro invocation: (receiver, "tag", format arguments ...)
                 self.eat("!")
                 self.eat("(")
@@ -458,7 +489,7 @@ class P:
 
 # ---------------------------------------------------------------- code generation
 
-INT = ("u64", "usize", "u32")
+INT = ("u64", "usize", "u32", "u128")
 
 
 class Gen:
@@ -491,6 +522,9 @@ class Gen:
         if k == "var":
             if e[1] == "None":
                 return [], "None", want or "opt_id"
+            if e[1] in ("u32::MAX", "u64::MAX", "usize::MAX"):
+                t_ = e[1].split("::")[0]
+                return [], {"u32": "U32MAX", "u64": "U64MAX", "usize": "U64MAX"}[t_], t_
             if e[1] not in env and e[1] in self.consts:
                 return [], "%d" % self.consts[e[1]][1], self.consts[e[1]][0]
             if e[1] not in env:
@@ -505,6 +539,16 @@ class Gen:
             if f not in self.policy_used:
                 self.policy_used.append(f)
             return [], "policy_%s" % f, self.policy_fields[f]
+        if k == "if":
+            b0, c0, t0 = self.expr(e[1], env)
+            if t0 != "bool":
+                raise GenError("if on a non-boolean")
+            ta, ty_a = self.value_block(e[2], env, want)
+            tb, ty_b = self.value_block(e[3], env, ty_a)
+            if ty_a != ty_b:
+                raise GenError("if: branches of type %s and %s" % (ty_a, ty_b))
+            x = self.fresh()
+            return b0 + [(x, "(if %s\nthen (%s)\nelse (%s))" % (c0, ta, tb))], x, ty_a
         if k == "iflet":
             b0, c0, t0 = self.expr(e[2], env)
             if t0 != "opt_u64":
@@ -535,8 +579,10 @@ class Gen:
             b, c, t = self.expr(e[1], env)
             if t not in INT or e[2] not in INT:
                 raise GenError("cast to %s is outside the fragment" % e[2])
-            if INT.index(e[2]) > INT.index(t) and e[2] == "u32":
+            if e[2] == "u32" and t != "u32":
                 raise GenError("narrowing cast to u32 is outside the fragment")
+            if t == "u128" and e[2] != "u128":
+                raise GenError("narrowing cast from u128 is outside the fragment")
             # u32 -> u64/usize, u64 <-> usize: the identity on a 64-bit target
             return b, c, e[2]
         if k == "index":
@@ -553,6 +599,11 @@ class Gen:
                 if ta != tc or ta not in INT:
                     raise GenError("%s of %s and %s" % (e[1], ta, tc))
                 return b1 + b2, "(N.%s %s %s)" % (e[1], a, c), ta
+            if e[1] == "u32::try_from" and len(e[2]) == 1:
+                b1, a, ta = self.expr(e[2][0], env)
+                if ta not in INT:
+                    raise GenError("u32::try_from of a %s" % ta)
+                return b1, "(if %s <=? U32MAX then Some %s else None)" % (a, a), "opt_u32"
             if e[1] == "Ok" and e[2] == [("unit",)]:
                 return [], "true", "result_unit"
             if e[1] == "Some" and len(e[2]) == 1:
@@ -644,6 +695,10 @@ class Gen:
                 if op not in ("+", "-"):
                     raise GenError("u32 %s is outside the fragment" % op)
                 fn = {"+": "add32_p prof", "-": "sub32_p prof"}[op]
+            elif ta == "u128":
+                if op not in ("+", "*", "/"):
+                    raise GenError("u128 %s is outside the fragment" % op)
+                fn = {"+": "add128_p prof", "*": "mul128_p prof", "/": "div_p"}[op]
             else:
                 fn = {"+": "add_p prof", "-": "sub_p prof", "*": "mul_p prof", "/": "div_p", "%": "rem_p"}[op]
             x = self.fresh()
@@ -900,12 +955,14 @@ class Gen:
     def method(self, m):
         env = {x: t for x, t in m["params"]}
         self.cur = m
-        rt = {"u64": "N", "usize": "N", "u32": "N", "bool": "bool", "unit": "unit", "vec": "list N", "result_unit": "bool", "opt_id": "option N", "id": "N"}[m["ret"]]
+        rt = {"u64": "N", "usize": "N", "u32": "N", "bool": "bool", "unit": "unit", "vec": "list N", "result_unit": "bool", "opt_id": "option N", "id": "N", "u128": "N"}[m["ret"]]
         params = " ".join("(%s : %s)" % (x, {"bool": "bool", "vec": "list N", "opt_u64": "option N", "opt_id": "option N", "opt_u32": "option N"}.get(t, "N")) for x, t in m["params"])
         res = ("(%s * %s)" % (self.struct, rt) if m["ret"] != "unit" else self.struct) if m["selfmode"] == "mut" else rt
         self.tmp = 0
         self.policy_used = []
         body = self.block_value(m["body"], env, m)
+        if m["selfmode"] == "free":
+            return "Definition gen_%s (prof : profile) %s : trap %s :=\n%s." % (m["name"], params, paren(res), indent(body))
         if self.struct is None:
             # a method of a validator: `self` only reaches the policy; its fields and the filter are parameters
             pol = " ".join("(policy_%s : N)" % f for f in self.policy_used)
@@ -1024,6 +1081,29 @@ def const_table(src):
     return out
 
 
+def generate_txutil(repo):
+    path = os.path.join(repo, "vls-core", "src", "util", "transaction_utils.rs")
+    src = open(path).read()
+    names = ["estimate_feerate_per_kw", "expected_commitment_tx_weight"]
+    methods, texts = {}, {}
+    for n in names:
+        texts[n] = free_fn_source(src, n)
+        methods[n] = P(lex(texts[n])).fn()
+    g = Gen(None, [], methods)
+    g.consts = const_table(src)
+    out = []
+    for n in names:
+        out.append("(* %s\n%s *)\n%s" % (n, "\n".join("   " + l for l in texts[n].strip().replace("(*", "( *").replace("*)", "* )").splitlines()),
+                                            g.method(methods[n])))
+    text = ("(** GENERATED by tools/gen_rustfn.py from vls-core/src/util/transaction_utils.rs (fn estimate_feerate_per_kw,\n"
+            "    fn expected_commitment_tx_weight) - do not edit. *)\n"
+            "From VLS Require Export Base.Rust.\n\n" + "\n\n".join(out) + "\n")
+    outp = os.path.join(ROOT, "coq", "theories", "Gen", "TxUtilGen.v")
+    if not os.path.exists(outp) or open(outp).read() != text:
+        open(outp, "w").write(text)
+    return {"translated": ["transaction_utils::" + n for n in names]}
+
+
 def generate_monitor(repo):
     path = os.path.join(repo, "vls-core", "src", "monitor.rs")
     src = open(path).read()
@@ -1057,3 +1137,4 @@ if __name__ == "__main__":
     print(generate_payments(repo))
     print(generate_enforcement(repo))
     print(generate_monitor(repo))
+    print(generate_txutil(repo))
